@@ -34,11 +34,11 @@ Theorem C09_resync_epoch0_refuted : exists c hs1 hs2 a,
   /\ readable c (hrun c (hs1 ++ hs2)) a = true.
 Proof. exists w2_cfg, w2_before, w2_after, 0. exact resync_epoch0_refuted. Qed.
 
-(* a LOCK stored for a tombstoned object that has also expired revives it *)
+(* a LOCK stored for a dropped object (forced garbage mark) overrides the mark and revives it *)
 Theorem C09_lock_revives_removed_refuted : exists c hs1 hs2 a,
   reported_removed c (hrun c hs1) a = true /\ no_put a hs2 = true
   /\ readable c (hrun c (hs1 ++ hs2)) a = true.
-Proof. exists w3_cfg, w3_before, w3_after, 0. exact lock_on_expired_tombstoned_refuted. Qed.
+Proof. exists w3_cfg, w3_before, w3_after, 0. exact lock_on_dropped_refuted. Qed.
 
 (* flush-versus-delete schedule: the flusher's blob write lands after a complete
    deletion; the orphan is indexed by the next resync (interleaving machine) *)
